@@ -53,6 +53,7 @@ type cop struct {
 	Kind    opKind
 	Reqs    []*creq
 	CtxKind int // 0 background, 1 cancelled at a quiescent point, 2 deadline, 3 cancelled by a racing task, 4 already cancelled when invoked, 5 deadline that expires at whatever moment the scheduler gives the task that fires it
+	BigParams bool
 	Cause   bool // created with WithCancelCause / WithTimeoutCause and a custom cause
 	CancelAfter int // kind 3: scheduling steps the cancelling task waits first
 	Gate    bool
@@ -178,6 +179,7 @@ func newCliWorld(r *Run, cfg cliCfg) *cliWorld {
 		}
 		op.Gate = g.Chance("opgate", 0.4)
 		op.Delay = g.Int("opdelay", 20)
+		op.BigParams = g.Chance("bigparams", 0.03) // a request far larger than any buffer
 		w.ops = append(w.ops, op)
 	}
 	var ops []string
@@ -356,7 +358,12 @@ func (w *cliWorld) runOp(op *cop) {
 	}
 	op.Invoke = w.seq()
 	w.r.Ev("op.invoke", fmt.Sprint(op.Kind, op.Idx), 0, 0, "")
-	params := func(q *creq) any { return map[string]string{"t": q.Tag} }
+	params := func(q *creq) any {
+		if op.BigParams {
+			return map[string]string{"t": q.Tag, "pad": strings.Repeat("q", 70000)}
+		}
+		return map[string]string{"t": q.Tag}
+	}
 	record := func(q *creq, rsp *jrpc2.Response, err error) {
 		if rsp != nil {
 			q.RspID = rsp.ID()
